@@ -3,7 +3,12 @@ sequence, then get_result -- run on the real code with a recording (and optional
 independent oracle and compared exactly with the Gallina history model; (b) RECORDED RUNS of the steady-state loop:
 the buffers scipy's solver really returned and its `successful()` flags are handed to the Gallina loop
 (`ss_run_s gen_ss_facts`) and the outcome is compared with the implementation's; (c) networks whose solution does
-not exist beyond a finite time (blow-up, singular rate): the solver fails, the result must be a failure value.
+not exist beyond a finite time (blow-up, singular rate): the solver fails, the result must be a failure value;
+(d) NaN norms: relative norm with a pool that stays exactly 0 (0/0) next to slowly relaxing pools, and rate laws that
+leave their domain while a pool accumulates (NaN state, the solver still reports success): a criterion that cannot be
+evaluated is not convergence; (e) PARAMETER SWEEPS on one Simulator (clear_results; update_parameter;
+simulate_to_steady_state().get_result() for several values, results read only afterwards): every collected result
+must report the steady state and the balanced fluxes of ITS OWN parameter set.
 
 Nothing here shares code with the Coq model; the closed forms come from harness/c15.py (mpmath)."""
 
@@ -27,6 +32,20 @@ def quad(x, k):  # noqa: ANN001, ANN201
 
 def recip(x, k):  # noqa: ANN001, ANN201
     return k / (1.0 - x)
+
+
+def sqrt_dom(x):  # noqa: ANN001, ANN201
+    """defined for x <= 1 only: NaN beyond (numpy warns, does not raise)"""
+    import numpy as np
+
+    return np.sqrt(1.0 - x)
+
+
+def arcsin_dom(x):  # noqa: ANN001, ANN201
+    """defined for |x| <= 1 only"""
+    import numpy as np
+
+    return np.arcsin(x)
 
 
 # ---------------------------------------------------------------------------------------
@@ -276,34 +295,53 @@ def history_corr_file(defs: list[str]) -> str:
 
 
 def float_decisions_robust(y0: list[float], steps: list[tuple[list[float], bool]], tol: float, rel: bool) -> bool:
-    """False if binary64 rounding of the norm could decide differently from exact arithmetic in some recorded step
-    (|norm - tol| within 1e-9 relative), or a value is not finite."""
+    """False if binary64 evaluation of the test could decide differently from the model's exact arithmetic on the
+    finite part in some recorded step: |norm - tol| within 1e-9 relative, or a finite intermediate that overflows
+    (|value| > 1e150, a quotient or difference beyond 1e150).  inf / NaN entries of the buffers themselves are fine:
+    the IEEE loop of SteadyNan.v models them (0/0, x/0, inf - inf, NaN propagation)."""
     prev = y0
     for y, _ok in steps:
-        if any(not math.isfinite(v) for v in y) or any(abs(v) > 1e150 for v in y):
+        if any(math.isfinite(v) and abs(v) > 1e150 for v in y):
             return False
-        if rel:
-            if any(a == 0.0 for a in prev):
-                prev = y
+        comps = []
+        special = False
+        for a, b in zip(prev, y):
+            if not (math.isfinite(a) and math.isfinite(b)) or (rel and a == 0.0):
+                special = True  # inf / NaN component: decided by IEEE rules, no rounding involved
                 continue
-            comps = [(b - a) / a for a, b in zip(prev, y)]
-        else:
-            comps = [b - a for a, b in zip(prev, y)]
-        nrm = math.sqrt(sum(c * c for c in comps))
-        if abs(nrm - tol) <= 1e-9 * max(nrm, abs(tol)):
-            return False
+            c = (b - a) / a if rel else b - a
+            if abs(c) > 1e150:
+                return False
+            comps.append(c)
+        if not special:
+            nrm = math.sqrt(sum(c * c for c in comps))
+            if abs(nrm - tol) <= 1e-9 * max(nrm, abs(tol)):
+                return False
         prev = y
     return True
 
 
+def cxq(x: float) -> str:
+    """a binary64 value as a SteadyNan.xq literal"""
+    if x != x:
+        return "XNaN"
+    if math.isinf(x):
+        return "(XInf true)" if x < 0 else "(XInf false)"
+    return "(XFin " + cq(common.to_fraction(x)) + ")"
+
+
+def cxvec(v) -> str:  # noqa: ANN001
+    return clist(cxq(float(x)) for x in v)
+
+
 def recorded_coq_case(idx: int, y0: list[float], steps: list[tuple[list[float], bool]], tol: float, rel: bool, kind: str,
                       t: float | None) -> str:
-    samples = clist([c15_cvec(y0)] + [c15_cvec(y) for y, _ in steps])
+    samples = clist([cxvec(y0)] + [cxvec(y) for y, _ in steps])
     oks = clist(["true"] + [common.cbool(ok) for _, ok in steps])
     obs = {"NoSteady": "ObsNoSteady", "IntegFail": "ObsIntegFail"}.get(kind, "ObsOther")
     if kind == "Steady":
         obs = f"ObsSteady {cq(common.to_fraction(t))}"
-    return (f"Definition rcase_{idx} : rcase := ({cq(common.to_fraction(tol))}, {common.cbool(rel)}, {c15_cvec(y0)}, "
+    return (f"Definition rcase_{idx} : rcase := ({cq(common.to_fraction(tol))}, {common.cbool(rel)}, {cxvec(y0)}, "
             f"{samples}, {oks}, {obs}).\n")
 
 
@@ -311,13 +349,13 @@ def recorded_corr_file(defs: list[str]) -> str:
     n = len(defs)
     return (
         "From Coq Require Import QArith ZArith NArith List.\nImport ListNotations.\nFrom MxlBase Require Import ListX.\n"
-        "From Steady Require Import SteadyLoop GenSteadyFacts.\n"
-        "Definition rcase := (Q * bool * vec * list vec * list bool * ss_obs)%type.\n"
+        "From Steady Require Import SteadyLoop SteadyNan GenSteadyFacts.\n"
+        "Definition rcase := (Q * bool * xvec * list xvec * list bool * ss_obs)%type.\n"
         + "".join(defs)
         + "Definition cases : list rcase := " + clist(f"rcase_{i}" for i in range(n)) + ".\n"
         "Definition agrees (c : rcase) : bool :=\n"
         "  match c with (tol, rel, y0, samples, oks, o) =>\n"
-        "    obs_eqb (obs_of (ss_run_s gen_ss_facts tol rel y0 (traj_fun (TrajList samples)) (ok_fun oks))) o\n"
+        "    obs_eqb (xobs_of (xs_run gen_ss_facts tol rel y0 (xtraj_fun samples) (ok_fun oks))) o\n"
         "  end.\n"
         "Definition mismatches := filter_idx (fun c => negb (agrees c)) cases.\n"
         "Eval vm_compute in mismatches.\n"
@@ -400,3 +438,180 @@ def singular_oracle(spec: dict, out: dict) -> tuple[str, str] | None:
         f"t={tend:.6g} (closed form), the solver failed (integ.successful() is False), yet the search returned SUCCESS: "
         f"x={out['y'][0]:.6g} 'steady' at t={out['t']}, reported flux {out['fluxes'][0]:.3g}"
     )
+
+
+# ---------------------------------------------------------------------------------------
+# (d) NaN norms
+# ---------------------------------------------------------------------------------------
+
+
+def demo_emptypool() -> dict:
+    """-> x0 -> x1 ->, relaxation time 50; x2 is never produced and stays at 0 (seeded change C15-4, demo A)"""
+    return {"kind": "emptypool", "d": 3, "reactions": [("in", 0, 1.0), ("conv", 0, 1, 0.02), ("out", 1, 0.05), ("out", 2, 0.3)],
+            "has_ss": True, "y0": [0.0, 0.0, 0.0], "user_y0": False, "y0_default": [0.0, 0.0, 0.0]}
+
+
+def gen_emptypool(rng) -> dict:
+    """A slowly relaxing pool / chain (contraction 0.1 .. 0.7 per step) started far from its steady state, plus a pool
+    that is empty and only consumed: it stays EXACTLY 0, its relative change is 0/0."""
+    def k_of(r: float) -> float:
+        return -math.log(r) / 100.0
+
+    nb = rng.choice([1, 2, 2])
+    ks = [k_of(rng.uniform(0.1, 0.7)) for _ in range(nb)]
+    scale = 10 ** rng.uniform(-1, 2)
+    rx: list[tuple] = [("in", 0, scale * min(ks) * rng.uniform(0.2, 1))]
+    for i in range(nb - 1):
+        rx.append(("conv", i, i + 1, ks[i]))
+    rx.append(("out", nb - 1, ks[nb - 1]))
+    rx.append(("out", nb, k_of(rng.uniform(0.02, 0.5))))
+    ystar = [rx[0][2] / k for k in ks]
+    y0 = [0.0 if rng.random() < 0.5 else ys * rng.uniform(0.0, 0.5) for ys in ystar] + [0.0]
+    user = rng.random() < 0.5
+    # the empty pool must be empty in the model's defaults as well when those are used
+    return {"kind": "emptypool", "d": nb + 1, "reactions": rx, "has_ss": True, "y0": y0, "user_y0": user,
+            "y0_default": ([v * 3 + 1 for v in y0[:-1]] + [2.0]) if user else list(y0)}
+
+
+def gen_domain(rng) -> dict:
+    """x0 accumulates without bound (constant influx); the production of x1 is defined only while x0 <= 1."""
+    return {"law": rng.choice(["sqrt", "sqrt", "arcsin"]), "k_in": float(rng.choice([0.002, 0.004, 0.05, 0.5])),
+            "kd": float(rng.choice([0.01, 0.1])), "x0": float(rng.choice([0.0, 0.0, 0.5]))}
+
+
+def build_domain(spec: dict):  # noqa: ANN201
+    from harness import c15
+    from mxlpy import Model
+
+    m = Model()
+    m.add_variable("x0", float(spec["x0"]))
+    m.add_variable("x1", 0.0)
+    m.add_parameter("p0", float(spec["k_in"]))
+    m.add_parameter("p2", float(spec["kd"]))
+    m.add_reaction("r0", fn=c15.const, args=["p0"], stoichiometry={"x0": 1})
+    m.add_reaction("r1", fn=sqrt_dom if spec["law"] == "sqrt" else arcsin_dom, args=["x0"], stoichiometry={"x1": 1})
+    m.add_reaction("r2", fn=c15.ma1, args=["x1", "p2"], stoichiometry={"x1": -1})
+    return m
+
+
+def run_domain(spec: dict, tol: float, rel: bool) -> dict:
+    import numpy as np
+
+    from mxlpy import Simulator
+
+    signal.signal(signal.SIGALRM, _alarm)
+    signal.setitimer(signal.ITIMER_REAL, 120.0)
+    out: dict[str, Any]
+    try:
+        m = build_domain(spec)
+        with OdeSpy() as spy, np.errstate(all="ignore"):
+            res = Simulator(m).simulate_to_steady_state(tolerance=tol, rel_norm=rel).get_result()
+        v = res.value
+        k = result_kind(v)
+        out = {"kind": k, "steps": spy.steps}
+        if k == "Success":
+            fr = v.raw_variables[-1]
+            out.update(kind="Steady", t=float(fr.index[-1]), y=[float(fr["x0"].iloc[-1]), float(fr["x1"].iloc[-1])])
+    except _Timeout:
+        out = {"kind": "Err:Timeout", "steps": []}
+    except Exception as e:  # noqa: BLE001
+        out = {"kind": "Err:" + type(e).__name__, "detail": str(e)[:200], "steps": []}
+    finally:
+        signal.setitimer(signal.ITIMER_REAL, 0)
+    return out
+
+
+def domain_oracle(spec: dict, tol: float, rel: bool, out: dict) -> tuple[str, str] | None:
+    """dx0/dt = k_in > 0: x0 grows by 100*k_in >= 0.2 in every step, for ever -- the network has NO steady state, so
+    any state presented as steady is wrong (the tolerances of this stage are far below that change; under the relative
+    norm the change of x0 is >= 1/1000 per step within the budget)."""
+    if out["kind"].startswith("Err"):
+        return "violation", f"steady-state search on {spec} ended with {out['kind']} {out.get('detail', '')}"
+    if out["kind"] != "Steady":
+        return None
+    return "violation", (
+        f"dx0/dt = {spec['k_in']} (x0 accumulates without bound, no steady state) with the production of x1 = "
+        f"{'sqrt(1 - x0)' if spec['law'] == 'sqrt' else 'arcsin(x0)'} undefined for x0 > 1: the search (tolerance={tol}, "
+        f"rel_norm={rel}) returned SUCCESS with state {out['y']} at t={out['t']}"
+    )
+
+
+# ---------------------------------------------------------------------------------------
+# (e) parameter sweeps on ONE Simulator, results read afterwards
+# ---------------------------------------------------------------------------------------
+
+
+def net_with(net: dict, r_idx: int, value: float) -> dict:
+    n2 = dict(net)
+    rx = list(net["reactions"])
+    rx[r_idx] = (*rx[r_idx][:-1], float(value))
+    n2["reactions"] = rx
+    return n2
+
+
+def run_sweep(net: dict, r_idx: int, values: list[float], tol: float, rel: bool) -> dict:
+    """clear_results(); update_parameter(p<r_idx>, v); simulate_to_steady_state().get_result() for every v with ONE
+    Simulator / ONE model object; the collected results are looked at only AFTER the loop (lazy evaluation)."""
+    import numpy as np
+
+    from harness import c15
+    from mxlpy import Simulator
+
+    signal.signal(signal.SIGALRM, _alarm)
+    signal.setitimer(signal.ITIMER_REAL, 180.0)
+    out: dict[str, Any] = {"results": [], "raised": None}
+    try:
+        m = c15.build_model(net)
+        y0 = {f"x{i}": float(v) for i, v in enumerate(net["y0"])} if net["user_y0"] else None
+        sim = Simulator(m, y0=y0)
+        collected = []
+        with np.errstate(all="ignore"):
+            for v in values:
+                sim.clear_results()
+                sim.update_parameter(f"p{r_idx}", float(v))
+                collected.append(sim.simulate_to_steady_state(tolerance=tol, rel_norm=rel).get_result())
+            names = [f"x{i}" for i in range(net["d"])]
+            for res in collected:
+                val = res.value
+                k = result_kind(val)
+                if k != "Success":
+                    out["results"].append({"kind": k})
+                    continue
+                fr = val.raw_variables[-1]
+                fl = val.fluxes
+                out["results"].append({"kind": "Steady", "t": float(fr.index[-1]), "y": [float(fr[nm].iloc[-1]) for nm in names],
+                                       "fluxes": [float(fl[f"r{r}"].iloc[-1]) for r in range(len(net["reactions"]))]})
+    except _Timeout:
+        out["raised"] = "Timeout"
+    except Exception as e:  # noqa: BLE001
+        out["raised"] = type(e).__name__ + ": " + str(e)[:160]
+    finally:
+        signal.setitimer(signal.ITIMER_REAL, 0)
+    return out
+
+
+def sweep_oracle(net: dict, r_idx: int, values: list[float], tol: float, rel: bool, sw: dict) -> tuple[str, str] | None:
+    """Every collected result is judged as a single search on the network with ITS value of the parameter: state near
+    that network's analytic steady state, reported fluxes balancing at it."""
+    from harness import c15
+
+    desc = f"sweep of p{r_idx} over {values} on ONE Simulator (network {net['kind']} {net['reactions']} y0={net['y0']} tol={tol} rel_norm={rel})"
+    if sw["raised"]:
+        return "violation", f"{desc} raised {sw['raised']}"
+    for v, out in zip(values, sw["results"]):
+        verdict = c15.oracle(net_with(net, r_idx, v), tol, rel, out, {})
+        if verdict is not None and not verdict[0].startswith("undecided:"):
+            want = expected_fluxes(net_with(net, r_idx, v), out.get("y")) if out["kind"] == "Steady" else None
+            return verdict[0], (f"{desc}: the result collected for p{r_idx}={v} (read after the sweep): {verdict[1]}; reported fluxes "
+                                f"{out.get('fluxes')}, rate laws at the reported state under p{r_idx}={v}: {want}")
+    return None
+
+
+def expected_fluxes(net: dict, y: list[float] | None) -> list[float] | None:
+    """the rate laws of the generated linear networks, evaluated independently of the implementation"""
+    if y is None:
+        return None
+    out = []
+    for rx in net["reactions"]:
+        out.append(float(rx[2]) if rx[0] == "in" else float(rx[-1]) * y[rx[1]])
+    return out
